@@ -2,19 +2,44 @@
 import json, os, subprocess
 from . import common
 
+RT = 'Refine.tla: TLC runs the REAL compiler output on the Sphinx machine spec (SphinxRT monitors evaluated in every state) and the source on HiDSem, and compares observables; '
 CHECKS = {
- 'C01': ('Refine.tla: TLC runs the real compiler output on the Sphinx machine spec and the source on HiDSem, Agree + all SphinxRT monitors in every state',
+ 'C01': (RT + 'random well-typed sequential programs x input grid x word sizes x stack sizes',
          'trace validation of compiled code against the TLA+ source semantics (TLC)', '5/C01, 2.2-2.5'),
+ 'C02': (RT + 'enumerated time-travel core (try/undo/stop, preempt, defeat functions, histories of consecutive tries), templates, random time-travel programs',
+         'trace validation of compiled code against the TLA+ backtracking semantics (TLC)', '5/C02, 2.4'),
+ 'C03': ('NoRealHalt (Sphinx.tla) evaluated by TLC in every machine state, speculative or committed, of every run of a corpus covering all flavours, control constructs and histories; checked and fault-free unchecked builds',
+         'state invariant on the TLA+ machine spec executing real compiler output (TLC)', '5/C03, 2.2'),
+ 'C04': ('SphinxRT.tla monitors (FrameInGap, ElemInExtent, Unclassified, AbiWordsSafe, ApFpOrdered, NoFault) in every state; stack-size sweep differential; Tracker.tla replay into the real Tracker',
+         'provenance monitors over TLA+ machine behaviours (TLC) + model replay', '5/C04, 2.3'),
+ 'C05': (RT + 'fault-injection sites x positions x element types x storage classes x boundary operand values',
+         'trace validation against the TLA+ fault semantics (TLC)', '5/C05'),
  'C06': ('Context.tla enumerated by TLC (every nesting path x construct with expected verdict), replayed into hidc.parser.parse, accept/reject compared both ways',
          'TLA+ model enumeration (TLC) + replay into the parser', '5/C06, 2.6'),
  'C07': ('Types.tla enumerated by TLC (rule x position x descriptor with expected verdict and overload), replayed into parse+evaluate',
          'TLA+ model enumeration (TLC) + replay into the typechecker', '5/C07, 2.6'),
+ 'C08': ('SphinxRT.tla monitors LoopFootprint, ReturnBalanced, TryBalanced, ElemInExtent in every state + Agree + fixed-footprint clause (1 vs 2, 5, 20 iterations at the minimum stack)',
+         'history-variable monitors over TLA+ machine behaviours (TLC)', '5/C08, 2.3'),
+ 'C09': (RT + 'one program per operator/cast with all usage positions, operands on a boundary grid, several word sizes',
+         'trace validation against Word.tla arithmetic (TLC)', '5/C09, 2.1'),
  'C10': ('Driver.tla trace validation of recorded API/CLI compilations (TLC accepts or rejects each trace); token soups enumerated by TLC',
          'trace validation against a TLA+ protocol spec (TLC)', '5/C10, 2.6'),
  'C11': ('Precedence.tla: TLC re-parses every recorded token string with its own operator-precedence machine and compares trees; spec-printed trees parsed back by hidc',
          'trace validation + round trip against a TLA+ parser spec (TLC)', '5/C11, 2.6'),
  'C12': ('Lexer.tla: TLC re-lexes every recorded input with the spec tokenizer and compares kinds, values and spans; layout variants compared',
          'trace validation against a TLA+ tokenizer spec (TLC)', '5/C12, 2.6'),
+ 'C13': (RT + 'every byte value in string/char literals, special-byte pairs, constant arrays of all lengths; AsmText.tla unescapes every emitted literal',
+         'trace validation (TLC) of data constants end to end', '5/C13'),
+ 'C14': (RT + 'TWINS: the compiled constant form judged against HiDSem run on the run-time form of the same expression',
+         'twin-program trace validation (TLC)', '5/C14'),
+ 'C15': (RT + 'UNCHECKED images judged against the source semantics on inputs whose source-level run is fault free',
+         'trace validation of the unchecked build (TLC)', '5/C15'),
+ 'C16': ('ExitModes.tla enumerated by TLC (ground truth CanComplete per body shape) replayed into the typechecker; NoFallThrough monitor in every machine state while accepted shapes are driven down every path',
+         'TLA+ model enumeration + state invariant on machine behaviours (TLC)', '5/C16'),
+ 'C17': (RT + 'write(int) over value ranges (thorough: all 65536 at 16 bits), write(bool/byte/string/byte array) of every length, tight stacks',
+         'trace validation against Word.Decimal (TLC)', '5/C17'),
+ 'C18': ('Driver.tla digest traces (hash seeds, processes, --lint) + Refine.tla at ladders of stack sizes and word sizes (wrap history bit of HiDSem)',
+         'trace validation (TLC) across configurations', '5/C18'),
 }
 NOT_YET = {}
 
